@@ -223,25 +223,32 @@ class SymInt:
     def _inf(o):
         return isinstance(o, float) and o in (float("inf"), float("-inf"))
 
+    @staticmethod
+    def _cz(o):
+        # comparison operand: an integral float compares exactly like the integer it denotes
+        if isinstance(o, float) and o == o and o not in (float("inf"), float("-inf")) and o.is_integer():
+            return z3.IntVal(int(o))
+        return Zt(o)
+
     def __lt__(self, o):
         if self._inf(o):
             return o > 0
-        return lift(self.t < Zt(o))
+        return lift(self.t < self._cz(o))
 
     def __le__(self, o):
         if self._inf(o):
             return o > 0
-        return lift(self.t <= Zt(o))
+        return lift(self.t <= self._cz(o))
 
     def __gt__(self, o):
         if self._inf(o):
             return o < 0
-        return lift(self.t > Zt(o))
+        return lift(self.t > self._cz(o))
 
     def __ge__(self, o):
         if self._inf(o):
             return o < 0
-        return lift(self.t >= Zt(o))
+        return lift(self.t >= self._cz(o))
 
     def __eq__(self, o):
         if o is None:
